@@ -40,6 +40,9 @@ pub struct CacheSpec {
     drop_sender: bool,
     /// what happens in the directory after the drop (filesystem source): 0 nothing, 1 an asset file changes, 2 only a file that maps to no id
     after_drop: u8,
+    /// feeder source only: that many extra threads flood the event channel from just before the drop on
+    #[serde(default)]
+    flooders: u8,
 }
 
 #[derive(Debug, Clone, Serialize, Deserialize)]
@@ -57,12 +60,16 @@ enum Live {
 pub struct FeederStats {
     sends: std::sync::atomic::AtomicU64,
     stopped: std::sync::atomic::AtomicBool,
+    /// the flooding threads start when this is set
+    flood: std::sync::atomic::AtomicBool,
+    flooders: std::sync::atomic::AtomicU64,
 }
+const FLOOD_CAP: u64 = 8_000_000;
 
 pub struct FeederSource {
     inner: MemSource,
     stats: std::sync::Arc<FeederStats>,
-    feeder: std::sync::Mutex<Option<std::thread::JoinHandle<()>>>,
+    feeder: std::sync::Mutex<Vec<std::thread::JoinHandle<()>>>,
 }
 
 impl assets_manager::source::Source for FeederSource {
@@ -79,24 +86,42 @@ impl assets_manager::source::Source for FeederSource {
         self.inner.make_source()
     }
     fn configure_hot_reloading(&self, events: assets_manager::hot_reloading::EventSender) -> Result<(), assets_manager::BoxedError> {
+        use std::sync::atomic::Ordering::SeqCst;
+        let mut hs = Vec::new();
         let stats = self.stats.clone();
-        let h = std::thread::Builder::new().name("vcheck_feeder".into()).spawn(move || {
+        let ev = events.clone();
+        hs.push(std::thread::Builder::new().name("vcheck_feeder".into()).spawn(move || {
             // an entry nobody depends on: the reloader wakes up, finds nothing to do
             let noise = assets_manager::source::OwnedDirEntry::File("unrelated".into(), "zz".into());
-            while events.send(noise.clone()).is_ok() {
-                stats.sends.fetch_add(1, std::sync::atomic::Ordering::SeqCst);
+            while ev.send(noise.clone()).is_ok() {
+                stats.sends.fetch_add(1, SeqCst);
                 std::thread::sleep(Duration::from_millis(1));
             }
-            stats.stopped.store(true, std::sync::atomic::Ordering::SeqCst);
-        })?;
-        *self.feeder.lock().unwrap() = Some(h);
+            stats.stopped.store(true, SeqCst);
+        })?);
+        for _ in 0..self.stats.flooders.load(SeqCst) {
+            let stats = self.stats.clone();
+            let ev = events.clone();
+            hs.push(std::thread::Builder::new().name("vcheck_flooder".into()).spawn(move || {
+                let noise = assets_manager::source::OwnedDirEntry::File("unrelated".into(), "zz".into());
+                while !stats.flood.load(SeqCst) && !stats.stopped.load(SeqCst) {
+                    std::thread::sleep(Duration::from_millis(1));
+                }
+                // back to back, until the reloader is gone (or a cap that keeps memory bounded)
+                while stats.sends.load(SeqCst) < FLOOD_CAP && ev.send(noise.clone()).is_ok() {
+                    stats.sends.fetch_add(1, SeqCst);
+                }
+            })?);
+        }
+        *self.feeder.lock().unwrap() = hs;
         Ok(())
     }
 }
 
 impl Drop for FeederSource {
     fn drop(&mut self) {
-        if let Some(h) = self.feeder.lock().unwrap().take() {
+        let hs = std::mem::take(&mut *self.feeder.lock().unwrap());
+        for h in hs {
             let _ = h.join();
         }
     }
@@ -134,7 +159,7 @@ impl Prop for C15 {
         "cases = sequences over 1..4 caches with hot-reloading on an in-memory (custom) source, a custom source owning an event-producing thread (stopped by Disconnected from EventSender::send, joined by the source's destructor) or a real FileSystem source in a temp dir: create, load k assets, send events, call hot_reload, optionally let the source drop its EventSender, \
          then drop the cache while idle / right after hot_reload / with events still queued / right after loads; for filesystem caches optionally change files in the directory afterwards (an asset, or only a file that maps to no id). \
          Oracle from /proc/self/task (per-thread CPU ticks and states, never wall-clock latency): while the harness idles for 400 ms every live reloader thread accrues <= 2 ticks; during the 2 s after the drops each reloader thread of a dropped cache \
-         has disappeared, or at least did not accrue >= 25 ticks while still running in the last 500 ms; after a change in a dropped filesystem cache's directory its watcher thread is gone too (thread count back to the baseline, polled for up to 10 s); dropping a cache on the feeder source finishes before the feeder got 3000 more events accepted. \
+         has disappeared, or at least did not accrue >= 25 ticks while still running in the last 500 ms; after a change in a dropped filesystem cache's directory its watcher thread is gone too (thread count back to the baseline, polled for up to 10 s); dropping a cache on the feeder source finishes before the feeder got 3000 more events accepted (3 million when 2..4 extra threads flood the channel from just before the drop on). \
          non-trivial = a drop with events still queued or right after a hot_reload, or a source that dropped its sender, or a filesystem cache; distinct = different canonical JSON"
             .into()
     }
@@ -160,15 +185,16 @@ impl Prop for C15 {
 
     fn strategy(&self, _tier: Tier) -> BoxedStrategy<Value> {
         let spec = (
-            prop_oneof![3 => Just(SrcKind::Mem), 2 => Just(SrcKind::Fs), 1 => Just(SrcKind::Feeder)],
+            prop_oneof![3 => Just(SrcKind::Mem), 2 => Just(SrcKind::Fs), 2 => Just(SrcKind::Feeder)],
             0u8..4,
             0u8..6,
             0u8..4,
             prop_oneof![Just(DropTiming::Idle), Just(DropTiming::RightAfterHotReload), Just(DropTiming::EventsQueued), Just(DropTiming::RightAfterLoads)],
             prop::bool::weighted(0.3),
             0u8..3,
+            prop_oneof![1 => Just(0u8), 1 => 2u8..5],
         )
-            .prop_map(|(kind, loads, events, hot_reloads, timing, drop_sender, after_drop)| CacheSpec { kind, loads, events, hot_reloads, timing, drop_sender, after_drop });
+            .prop_map(|(kind, loads, events, hot_reloads, timing, drop_sender, after_drop, flooders)| CacheSpec { kind, loads, events, hot_reloads, timing, drop_sender, after_drop, flooders: if kind == SrcKind::Feeder { flooders } else { 0 } });
         prop::collection::vec(spec, 1..4).prop_map(|caches| to_case(&Case { caches })).boxed()
     }
 
@@ -194,7 +220,8 @@ impl Prop for C15 {
                         src.tree().put(&format!("a{i}"), "v", b"1".to_vec(), Variant::Buffer);
                     }
                     let stats = std::sync::Arc::new(FeederStats::default());
-                    Live::Feeder(AssetCache::with_source(FeederSource { inner: src, stats: stats.clone(), feeder: std::sync::Mutex::new(None) }), stats)
+                    stats.flooders.store(spec.flooders as u64, std::sync::atomic::Ordering::SeqCst);
+                    Live::Feeder(AssetCache::with_source(FeederSource { inner: src, stats: stats.clone(), feeder: std::sync::Mutex::new(Vec::new()) }), stats)
                 }
                 SrcKind::Fs => {
                     let dir = tmpdir("fs");
@@ -291,6 +318,7 @@ impl Prop for C15 {
         let mut fs_dirs: Vec<(std::path::PathBuf, u8)> = Vec::new();
         let mut tricky = false;
         let mut feeder_used = false;
+        let mut flooded = false;
         for (l, tid, spec) in live {
             match spec.timing {
                 DropTiming::EventsQueued => {
@@ -337,6 +365,16 @@ impl Prop for C15 {
                     // that the feeder sees Disconnected and the source's destructor can return
                     use std::sync::atomic::Ordering::SeqCst;
                     feeder_used = true;
+                    let limit: u64 = if spec.flooders > 0 { 3_000_000 } else { 3000 };
+                    if spec.flooders > 0 {
+                        // the event queue is non-empty and growing when the cache goes away
+                        let s0 = stats.sends.load(SeqCst);
+                        stats.flood.store(true, SeqCst);
+                        while stats.sends.load(SeqCst) < s0 + 20_000 {
+                            std::hint::spin_loop();
+                        }
+                        flooded = true;
+                    }
                     let at_drop = stats.sends.load(SeqCst);
                     let done = std::sync::Arc::new(std::sync::atomic::AtomicBool::new(false));
                     let d2 = done.clone();
@@ -344,7 +382,7 @@ impl Prop for C15 {
                         drop(cache);
                         d2.store(true, SeqCst);
                     });
-                    while !done.load(SeqCst) && stats.sends.load(SeqCst) - at_drop < 3000 {
+                    while !done.load(SeqCst) && stats.sends.load(SeqCst) - at_drop < limit {
                         std::thread::sleep(Duration::from_millis(2));
                     }
                     if !done.load(SeqCst) {
@@ -422,6 +460,9 @@ impl Prop for C15 {
         if feeder_used {
             out.label("source-with-feeder-thread");
         }
+        if flooded {
+            out.label("drop-under-notification-flood");
+        }
         if fs_checked {
             out.label("fs-change-after-drop");
         }
@@ -429,6 +470,6 @@ impl Prop for C15 {
     }
 
     fn required_labels(&self) -> Vec<&'static str> {
-        vec!["drop-with-queued-events / right-after-hot_reload", "source-dropped-sender", "filesystem-cache", "source-with-feeder-thread"]
+        vec!["drop-with-queued-events / right-after-hot_reload", "source-dropped-sender", "filesystem-cache", "source-with-feeder-thread", "drop-under-notification-flood"]
     }
 }
